@@ -568,8 +568,22 @@ func TestVF_C10_Frames(t *testing.T) {
 		var payloads [][]byte
 		var wire bytes.Buffer
 		for i := 0; i < nframes; i++ {
-			n := rapid.OneOf(rapid.IntRange(0, 40), rapid.IntRange(0, 5000)).Draw(t, "len")
-			p := rapid.SliceOfN(rapid.Byte(), n, n).Draw(t, "payload")
+			var p []byte
+			if rapid.IntRange(0, 39).Draw(t, "big?") == 17 {
+				// large frames are legal and routine (Produce with > 1 MiB of batches): sizes around
+				// and beyond 1 MiB, 2 MiB, ... with content that differs from MiB to MiB
+				n := rapid.SampledFrom([]int{1<<20 - 1, 1 << 20, 1<<20 + 1, 1<<20 + 4096, 2 << 20, 2<<20 + 7, 3<<20 + 123}).Draw(t, "big-len")
+				seed := rapid.Byte().Draw(t, "big-seed")
+				p = make([]byte, n)
+				for j := range p {
+					p[j] = seed + byte(j*31) + byte(j>>8)*7 + byte(j>>16)*13 + byte(j>>20)*101
+				}
+				st.Class("frame>=1MiB")
+			} else {
+				n := rapid.OneOf(rapid.IntRange(0, 40), rapid.IntRange(0, 5000)).Draw(t, "len")
+				p = rapid.SliceOfN(rapid.Byte(), n, n).Draw(t, "payload")
+			}
+			n := len(p)
 			payloads = append(payloads, p)
 			if err := WriteFrame(&wire, p); err != nil {
 				t.Fatalf("WriteFrame(%d bytes): %v", n, err)
@@ -600,7 +614,11 @@ func TestVF_C10_Frames(t *testing.T) {
 				failAt = 0
 			}
 		}
-		rd := &c10ChunkReader{data: stream, chunk: rapid.SampledFrom([]int{0, 1, 3, 4, 5, 7, 1000}).Draw(t, "chunk"), failAt: failAt}
+		chunk := rapid.SampledFrom([]int{0, 1, 3, 4, 5, 7, 1000}).Draw(t, "chunk")
+		if len(stream) > 1<<19 && chunk > 0 && chunk < 1000 {
+			chunk = chunk*8192 + 1 // MiB-sized frames: keep the number of Read calls sane
+		}
+		rd := &c10ChunkReader{data: stream, chunk: chunk, failAt: failAt}
 		st.Class("tail:" + tailKind)
 
 		// frames that are completely in front of the failure point must come back exactly
@@ -628,7 +646,11 @@ func TestVF_C10_Frames(t *testing.T) {
 					t.Fatalf("ReadFrame produced frame #%d (%d bytes) but only %d complete frames were sent (tail=%s)", got, len(f.Payload), nframes, tailKind)
 				}
 				if int(f.Length) != len(f.Payload) || !bytes.Equal(f.Payload, payloads[got]) {
-					t.Fatalf("frame #%d: got %d bytes (Length=%d), want the %d bytes written", got, len(f.Payload), f.Length, len(payloads[got]))
+					d := 0
+					for d < len(f.Payload) && d < len(payloads[got]) && f.Payload[d] == payloads[got][d] {
+						d++
+					}
+					t.Fatalf("frame #%d: got %d bytes (Length=%d) that differ from the %d bytes written (first difference at byte %d)", got, len(f.Payload), f.Length, len(payloads[got]), d)
 				}
 				got++
 			}
